@@ -36,6 +36,22 @@ class H2(H):
     pass
 
 
+CASCADE = {'kind': None, 'target': None, 'fired': False}
+
+
+class Hc(H):
+    """on_remove cascades: deletes another entity (deferred or immediate), once, during the deletion phase"""
+
+    def on_remove(self, entity, world):
+        super().on_remove(entity, world)
+        if FAULT['armed'] is not None and CASCADE['kind'] and not CASCADE['fired'] and CASCADE['phase']:
+            t = CASCADE['target']
+            if t != entity and world.get_components(t):
+                CASCADE['fired'] = True
+                LOG.append(('cascade', CASCADE['kind'], t))
+                world.delete_entity(t, immediate=(CASCADE['kind'] == 'immediate'))
+
+
 class N:
     pass
 
@@ -54,6 +70,7 @@ class P2(desper.Processor):
 
 CLASSES = [H, H2, N]
 SETS = [[H], [N], [H, N], [H, H2]]
+SETS_CASCADE = [[Hc], [H], [Hc, N], [N]]
 
 
 class Model:
@@ -84,6 +101,7 @@ def do_process(sp, w, m, ids, when, fault_allowed):
     start = len(LOG)
     FAULT['armed'] = fault_allowed
     FAULT['count'] = 0
+    CASCADE['phase'] = True
     dt = 7
     doomed = sorted((e for e in m.dead if m.ents.get(e)), key=repr)
     try:
@@ -97,7 +115,27 @@ def do_process(sp, w, m, ids, when, fault_allowed):
         sp.fail('process-raises', '%s: process() raised %r at %s' % (
             when, ex, traceback.extract_tb(ex.__traceback__)[-1][:3]), recovering=not fault_allowed)
     FAULT['armed'] = False
-    frame = LOG[start:]
+    CASCADE['phase'] = False
+    frame = [r for r in LOG[start:] if r[0] != 'cascade']
+    for r in LOG[start:]:
+        if r[0] == 'cascade':
+            # a callback deleted another entity during the deletion phase
+            sp.cover('cascade-' + r[1])
+            t = r[2]
+            if r[1] == 'immediate' or not w.get_components(t):
+                if t in doomed:
+                    doomed.remove(t)        # notified by the immediate path or already served; counted below
+                    for c in m.ents.get(t, {}).values():
+                        if isinstance(c, H):
+                            n = sum(1 for q in frame if q[0] == 'on_remove' and q[2] is c and q[1] == t)
+                            sp.check(n == 1, 'notified', '%s: cascaded entity %r: handler got %d on_remove calls' % (when, t, n))
+                m.ents.pop(t, None)
+                m.dead.discard(t)
+            else:
+                m.dead.add(t)               # deferred cascade not served in this frame: pending for the next
+                if t in doomed:
+                    doomed.remove(t)
+                m.cascade_wait = t
     kinds = [r[0] for r in frame]
     if 'process' in kinds:
         first_proc = kinds.index('process')
@@ -120,9 +158,12 @@ def do_process(sp, w, m, ids, when, fault_allowed):
                 n = sum(1 for r in frame if r[0] == 'on_remove' and r[2] is c and r[1] == e)
                 sp.check(n == 1, 'notified',
                          '%s: handler component of deleted entity %r got %d on_remove calls' % (when, e, n))
+    keep = getattr(m, 'cascade_wait', None)
+    m.cascade_wait = None
     for e in list(m.dead):
-        m.ents.pop(e, None)
-    m.dead.clear()
+        if e != keep:
+            m.ents.pop(e, None)
+    m.dead = {keep} if keep is not None and keep in m.ents else set()
     m.tainted.clear()
     m.recovering = False
     return True
@@ -132,9 +173,11 @@ def m_recovering(m):
     return getattr(m, 'recovering', False)
 
 
-def h_defer(sp, L=3, K=2, ids=(1, 2), fault=True, procs=1, build=False):
+def h_defer(sp, L=3, K=2, ids=(1, 2), fault=True, procs=1, build=False, cascade=False):
     del LOG[:]
     FAULT.update(at=None, count=0, armed=False, fired=False)
+    CASCADE.update(kind=None, target=None, fired=False, phase=False)
+    sets = SETS_CASCADE if cascade else SETS
     w = World()
     m = Model()
     for p in [P(), P2()][:procs]:
@@ -147,18 +190,22 @@ def h_defer(sp, L=3, K=2, ids=(1, 2), fault=True, procs=1, build=False):
     if build:
         # shape I: a state built through the public API from symbolic choices (reachable by construction)
         for e in ids:
-            k = sp.choose(len(SETS) + 1, 'build%r' % (e,))
-            if k < len(SETS):
-                comps = [T() for T in SETS[k]]
+            k = sp.choose(len(sets) + 1, 'build%r' % (e,))
+            if k < len(sets):
+                comps = [T() for T in sets[k]]
                 w.create_entity(*comps, entity_id=e)
                 m.ents[e] = {type(c): c for c in comps}
-                sp.note('build create_entity(%s, entity_id=%r)' % (', '.join(T.__name__ for T in SETS[k]), e))
+                sp.note('build create_entity(%s, entity_id=%r)' % (', '.join(T.__name__ for T in sets[k]), e))
         for e in ids:
             if e in m.ents and sp.flag('build-dead%r' % (e,)):
                 w.delete_entity(e)
                 m.dead.add(e)
                 sp.cover('delete-deferred')
                 sp.note('build delete_entity(%r)' % (e,))
+        if cascade:
+            CASCADE['kind'] = sp.pick(['deferred', 'immediate'], 'cascade-kind')
+            CASCADE['target'] = sp.pick(ids, 'cascade-target')
+            sp.note('an Hc.on_remove will delete_entity(%r, %s) once' % (CASCADE['target'], CASCADE['kind']))
         observe(sp, w, m, ids, 'after build')
 
     def step_ops(step):
@@ -179,7 +226,7 @@ def h_defer(sp, L=3, K=2, ids=(1, 2), fault=True, procs=1, build=False):
         try:
             if op == 0:
                 e = sp.pick(ids, 'e%d' % step)
-                ts = sp.pick(SETS, 'set%d' % step)
+                ts = sp.pick(sets, 'set%d' % step)
                 if e in m.tainted:
                     sp.assume(False)
                 comps = [T() for T in ts]
@@ -277,8 +324,10 @@ HARNESSES = {
 }
 TIERS = {
     'quick': [('defer', dict(L=3, K=1)),
+              ('defer', dict(L=1, K=2, build=True, cascade=True, fault=False), dict(required=['cascade-immediate', 'cascade-deferred', 'frame-deletes'])),
+              ('defer', dict(L=1, K=1, build=True, ids=(0, '')), dict(required=['delete-deferred', 'frame-deletes', 'id-reused'])),
               ('defer', dict(L=1, K=1, build=True), dict(required=['delete-deferred', 'frame-deletes', 'frame-failed', 'recovered']))],
-    'thorough': [('defer', dict(L=4, K=2)), ('defer', dict(L=3, K=2, build=True, procs=2)), ('defer', dict(L=5, K=1, ids=(1,), procs=2)),
+    'thorough': [('defer', dict(L=4, K=2)), ('defer', dict(L=2, K=2, build=True, cascade=True)), ('defer', dict(L=3, K=1, ids=(0, ''))), ('defer', dict(L=3, K=2, build=True, procs=2)), ('defer', dict(L=5, K=1, ids=(1,), procs=2)),
                  ('defer', dict(L=3, K=3, procs=2))],
 }
 BUDGET_S = {'quick': 150, 'thorough': 1500}
@@ -296,12 +345,14 @@ RULE = ('one evaluation = one feasible path (operation sequence x fault position
 BOUNDS = {'quick': 'L=3 operations + 1 trailing frame, ids 1,2, classes H, H2(H), N, one processor, one fault; built state (4 component sets or none per id, dead bits) + L=1 + 1 frame',
           'thorough': 'L=4 + 2 frames; L=5 + 1 frame with one id and two processors; L=3 + 3 frames'}
 ASSUMPTIONS = [
+    'cascade variant: one on_remove callback may delete another entity (deferred or immediate) during the deletion phase; a deferred cascade may be served in the same frame or in the next one (both accepted)',
+    'entity ids may be falsy (0 and the empty string)',
     'delete_entity is only called on entities that own components at that moment ("existed when delete_entity was called")',
     'at most one injected fault per history, raised by an on_remove callback during the deletion phase of a frame; after a '
     'failed frame only the statement\'s claim is checked (the next frame completes and the marked entities are gone); '
     'how often on_remove is delivered across the failed and the recovering frame is not checked',
     're-populating an id emptied while its deferred-deletion mark was pending is outside the claim (as in C01)',
 ]
-OUTSIDE = ['callbacks that mutate the world during the deletion phase', 'faults raised by processors', 'histories longer than L+K']
+OUTSIDE = ['callbacks that mutate the world during the deletion phase other than one cascading delete_entity of another entity', 'faults raised by processors', 'histories longer than L+K']
 
 TECHNIQUE = 'bounded symbolic execution (symx/z3) of deletion histories; fault position is an unconstrained z3 integer'
